@@ -63,6 +63,11 @@ class ExecImpl:
             self.m = mx.new_model("Mn" if nested else "M")
             self.S = self.m.new_space("S")
             self.Ch = self.S.new_space("Ch")
+            # allow_none at space / model level (cells -> space -> model, nearest setting that is not None wins)
+            if cells and "an_space" in cells[0]:
+                self.S.allow_none = cells[0]["an_space"]
+            if cells and "an_model" in cells[0]:
+                self.m.allow_none = cells[0]["an_model"]
             self.m.DeepReferenceError = DeepReferenceError
             self.m.NoneReturnedError = NoneReturnedError
             self.recorder = recorder
@@ -200,6 +205,10 @@ class ExecImpl:
 
 def model_prelude(cells, refs, maxdepth):
     lines = ["reset", "maxdepth %d" % (maxdepth if maxdepth else 100000)]
+    if cells and "an_space" in cells[0]:
+        lines.append("allownone space " + tri(cells[0]["an_space"]))
+    if cells and "an_model" in cells[0]:
+        lines.append("allownone model " + tri(cells[0]["an_model"]))
     for r, v in refs.items():
         lines.append("ref %d %s" % (r, val_s(v)))
     for c in cells:
@@ -207,8 +216,12 @@ def model_prelude(cells, refs, maxdepth):
     return lines
 
 
+def tri(v):
+    return "n" if v is None else str(int(bool(v)))
+
+
 def cell_line(c):
-    return "cell %d %d %d %d %s" % (c["id"], int(c["cached"]), int(c["allow_none"]), c["nparams"], sexp(c["body"]))
+    return "cell %d %d %s %d %s" % (c["id"], int(c["cached"]), tri(c["allow_none"]), c["nparams"], sexp(c["body"]))
 
 
 def run_both(cells, refs, n_rn, maxdepth, ops, observe=OBS, log=True):
